@@ -403,3 +403,72 @@ def k5_resolver_name_order(res, tier):
     res.checks += 2
     _resolver_order(res, 'for_', 'compiler::ir::ast::For', 'item', 'expr', F63_FOR_REPLAY)
     _resolver_order(res, 'catch', 'compiler::ir::ast::Catch', 'name', 'use', F63_CATCH_REPLAY)
+
+
+# ---------------------------------------------------------------------------------------------- K1 the stack simulation on unreachable code
+F65_SRC = 'fn g() { return 1; for a in [] {} }\nprint(g());\n'
+F65_REPLAY = dict(kind='lay', source=F65_SRC, bad_exit=[101, 134, -6], bad_re=r'panicked at', expect_stdout='1\n',
+                  note='a loop behind a return: the dead-code pass removes the instructions that push the loop variables, the loop that pops them stays')
+
+
+@obligation('C15.K1.stack_simulation_dead_code', 'C15', programs=('vm-dbg',), also=('C16',))
+def k1_dead_code(res, tier):
+    """apply_stack_effects (debug build: its own assertions compiled in) on what the dead-code pass leaves of a loop that follows a
+    return / raise / jump: everything up to the loop's first label is removed (the instructions that push the loop variables), the
+    loop and the drops of its variables stay.  The simulation must not hit a host panic on such a program (it is a valid program:
+    the code is merely unreachable)"""
+    from .c04 import _fun_builder_models, _arity_params, _panics
+    P = get_program('vm-dbg')
+    f = P.lookup('compiler::peephole::apply_stack_effects')
+    INS = 'byte_code::SymbolicByteCode'
+    ed = P.enum_def(INS)
+    lab_sd = 'byte_code::Label'
+    res.bounds = {'exit in front of the dead loop': 'Return, Raise, Jump', 'loop variables dropped behind the loop': '1..3', 'values pushed and popped in the loop body': '0..2'}
+    res.assumptions = ['remove_dead_code removes the instructions between an unconditional transfer and the next label (C12)']
+    e = Engine(P, loop_bound=60, timeout_s=120)
+    _fun_builder_models(e, P)
+
+    def ins(name, *ops):
+        vi = ed.vindex[name]
+        if not ops:
+            return EnumV(INS, vi, None, None, ed)
+        return EnumV(INS, vi, {name: {i: Cell(o) for i, o in enumerate(ops)}}, None, ed)
+
+    def label(n):
+        return Struct(lab_sd, {0: Cell(bv(n, 32))}, None)
+
+    def path(e):
+        xv = z3.BitVec('exit_kind', 64)
+        e.add_constraint(z3.ULE(xv, 2))
+        x = e.concretize(xv, [0, 1, 2])
+        nv = z3.BitVec('loop_variables', 64)
+        e.add_constraint(z3.And(z3.UGE(nv, 1), z3.ULE(nv, 3)))
+        n = e.concretize(nv, [1, 2, 3])
+        jv = z3.BitVec('body_values', 64)
+        e.add_constraint(z3.ULE(jv, 2))
+        j = e.concretize(jv, [0, 1, 2])
+        prog = [ins('Nil')]
+        prog += [[ins('Return')], [ins('Raise')], [ins('Drop'), ins('Jump', label(2))]][x]
+        # the loop, entered only from its own back edge: test, body, back edge, exit label, the loop variables leave the scope
+        prog += [ins('Label', label(0)), ins('Nil'), ins('JumpIfFalse', label(1))]
+        prog += [ins('Nil')] * j + [ins('Drop')] * j
+        prog += [ins('Loop', label(0)), ins('Label', label(1))] + [ins('Drop')] * n
+        prog += [ins('Label', label(2)), ins('Nil'), ins('Return')]
+        prog = [e.copy_value(p) for p in prog]
+        seq = ConcSeq(INS, [Cell(p) for p in prog])
+        fbuild = e.fresh('laythe_core::object::FunBuilder', 'fun_builder')
+        _arity_params(e, P, fbuild)
+        e.call(f, [Ref(Cell(fbuild)), SliceRef(seq, bv(0, 64), bv(len(prog), 64))])
+        e.check(True, 'apply_stack_effects returns on a program with an unreachable loop')
+        return {'exit': ['Return', 'Raise', 'Jump'][x], 'loop_variables': n, 'body_values': j}
+    results = e.explore(path)
+    seen = False
+    for r in results:
+        if r.kind == 'panic' and not seen:
+            seen = True
+            res.fail('C15.K1:the stack simulation asserts on an unreachable loop',
+                     'apply_stack_effects keeps simulating behind a return / raise / jump: the dead-code pass has removed the pushes of the loop variables but not the loop, '
+                     f'the drops behind it take the simulated depth below zero and the debug assertion fires ({str(r.info)[:100]})', {'path': str(r.info)}, replay=F65_REPLAY)
+        elif r.kind in ('oob', 'unreachable', 'ub', 'diverge', 'depth'):
+            res.fail(f'C15.K1:dead_code:{r.kind}', f'apply_stack_effects: path ends in {r.kind}: {str(r.info)[:200]}', {'path': str(r.info)})
+    summarize_paths(res, e, results, lambda r: r.info if isinstance(r.info, dict) else None, key_prefix='C15.K1:dead_code:', unwind_ok=False)
